@@ -89,6 +89,17 @@ Theorem C06_remove_detaches : forall e ops a s' r, caps_ok e -> in_agents e a = 
 Proof. exact remove_detaches_all. Qed.
 Print Assumptions C06_remove_detaches.
 
+(* model.remove_all_agents() never fails half-way, unregisters every agent, and leaves in the cells only agents that
+   had left the model before the call *)
+Theorem C06_remove_all_detaches : forall e ops s' r, caps_ok e ->
+  let s := exec e init ops in
+  step e s RemoveAll = (s', r) ->
+  r = Ok [] /\
+  (forall a, in_agents e a = true -> reg s' a = false) /\
+  (forall a x, In a (content s' x) -> In a (content s x) /\ (in_agents e a = true -> reg s a = false)).
+Proof. exact remove_all_all. Qed.
+Print Assumptions C06_remove_all_detaches.
+
 (* a rejection is always justified: agent.cell = tgt is refused only because the target holds exactly `capacity`
    agents and the agent is not one of them, or because a FixedAgent already has a cell (or is given None) *)
 Theorem C06_rejection_justified : forall e ops a tgt s' k, caps_ok e ->
@@ -276,3 +287,11 @@ Example C06_example_direction_names :
   lookup_dir gen_direction_map (lower [78; 111; 82; 116; 72]) = Some [-1; 0] /\
   lookup_dir gen_direction_map (lower [120]) = None.
 Proof. vm_compute. repeat split; try reflexivity. right. left. reflexivity. Qed.
+
+Example C06_example_remove_all :
+  let ops := ex_ops ++ [SetCell 3 (Some 3); Remove 2; SetCell 2 (Some 1)] in
+  results ex_env ops RemoveAll = Ok [] /\
+  map (content (exec ex_env init (ops ++ [RemoveAll]))) [0; 1; 2; 3] = [[]; [2]; []; []] /\
+  map (reg (exec ex_env init (ops ++ [RemoveAll]))) [1; 2; 3; 4] = [false; false; false; false] /\
+  empties ex_env (exec ex_env init (ops ++ [RemoveAll])) = [0; 2; 3].
+Proof. vm_compute. repeat split; reflexivity. Qed.
